@@ -119,7 +119,7 @@ def step (_ : Unit) (line : String) : Unit × String :=
     | _, _ => "bad-op"
   | ["mon_inst", exp, v, e0, e1] =>
     let ex : Option Expect := if exp == "allow" then some .allow else if exp == "exclude" then some .exclude
-                              else if exp == "any" then some .any else if exp == "deco" then some .decoExcluded else none
+                              else if exp == "any" then some .any else if exp == "deco" then some .decoExcluded else if exp == "regx" then some .regExcluded else none
     match ex, parseEmit v "v=", parseEmit e0 "e0=", parseEmit e1 "e1=" with
     | some ex, _, some e0, some e1 =>
       if !v.startsWith "v=" then "bad-op" else
